@@ -43,7 +43,9 @@ def cases(tier, seed):
     # ... and with both kinds mixed: a value that cannot be weakly referenced written over one that can
     yield {"kind": "bfs", "budget": "4KiB", "depth": 60, "nkeys": 3, "values": "mixed"}
     if tier == "thorough":
-        yield {"kind": "bfs", "budget": "4KiB", "depth": 60, "nkeys": 4}
+        # four keys: the state space (queue order x table order x weak references x recency ranks) is explored to a
+        # bounded depth and a bounded number of states, not to closure
+        yield {"kind": "bfs", "budget": "4KiB", "depth": 7, "nkeys": 4, "max_states": 250000}
     n = 150 if tier == "quick" else 6000
     for i in range(n):
         yield {"kind": "hist", "seed": seed, "idx": i, "length": 30 if tier == "quick" else 45,
@@ -310,7 +312,7 @@ def run_bfs(case, out):
     snaps = {(): r.snapshot()}
     depth, transitions, exhausted = 0, 0, False
     interesting = set()
-    while frontier and depth < case["depth"]:
+    while frontier and depth < case["depth"] and len(seen) < case.get("max_states", 10 ** 9):
         nxt = []
         for path in frontier:
             for op in ops:
